@@ -153,16 +153,21 @@ def Stats.addDelete (s : Stats) : Details → Stats
   | .folder => { s with foldersDel := s.foldersDel + 1 }
   | .symlink .. => { s with linksDel := s.linksDel + 1 }
 
+/-- what one iteration of the delete loop emits -/
+def delStepState (c : Ctx) (x : XState) (p : String) (d : Details) : XState :=
+  if c.dryRun then x.info s!"Would delete {c.prettyDest p (kindName d)}" else x.sendDest (deleteCmd p d)
+
 /-- The delete loop.  `some e` = the run ends with that error. -/
 def deleteLoop (c : Ctx) (errAt : Option Nat) :
     List (String × (Details × DelReason)) → XState → Stats → Option ErrKind × XState × Stats
   | [], x, st => (none, x, st)
   | (p, (d, _)) :: rest, x, st =>
-    let st := st.addDelete d
-    let x := if c.dryRun then x.info s!"Would delete {c.prettyDest p (kindName d)}"
-             else x.sendDest (deleteCmd p d)
-    let (e, x) := x.poll errAt
-    if e then (some .doer, x, st) else deleteLoop c errAt rest x st
+    let r := (delStepState c x p d).poll errAt
+    if r.1 then (some .doer, r.2, st.addDelete d) else deleteLoop c errAt rest r.2 (st.addDelete d)
+
+/-- the command that forwards one chunk: the time stamp only with the last chunk -/
+def chunkCmd (p : String) (data : List UInt8) (mtime : Int) (more : Bool) : Cmd :=
+  .createOrUpdateFile p data (if more then none else some mtime) more
 
 /-- The chunk relay of `copy_file` (non-dry-run).  Returns the error (if any), the new state and
 the final `chunk_offset`. -/
@@ -172,7 +177,7 @@ def chunkLoop (errAt : Option Nat) (p : String) (size : Nat) (mtime : Int) :
   | (data, more) :: rest, x, off =>
     if off + data.length > size then (some .sizeChanged, x, off)  -- the source grew: error at once
     else
-      let r := (x.sendDest (.createOrUpdateFile p data (if more then none else some mtime) more)).poll errAt
+      let r := (x.sendDest (chunkCmd p data mtime more)).poll errAt
       if r.1 then (some .doer, r.2, off + data.length)
       else if more then chunkLoop errAt p size mtime rest r.2 (off + data.length)
       else (none, r.2, off + data.length)
@@ -183,6 +188,16 @@ def fileScript (files : List (String × FileScript)) (p : String) : FileScript :
   | some s => s
   | none => []
 
+/-- `copy_file` (non-dry-run) -/
+def copyFileReal (errAt : Option Nat) (files : List (String × FileScript)) (p : String) (mtime : Int) (size : Nat)
+    (x : XState) (st : Stats) : Option ErrKind × XState × Stats :=
+  let r := chunkLoop errAt p size mtime (fileScript files p) (x.sendSrc (.getFileContent p)) 0
+  match r.1 with
+  | some e => (some e, r.2.1, st)
+  | none =>
+    if r.2.2 ≠ size then (some .sizeChanged, r.2.1, st)
+    else (none, r.2.1, { st with filesCopied := st.filesCopied + 1, bytesCopied := st.bytesCopied + size })
+
 /-- `copy_entry` for one entry. -/
 def copyOne (c : Ctx) (errAt : Option Nat) (files : List (String × FileScript))
     (p : String) (d : Details) (x : XState) (st : Stats) : Option ErrKind × XState × Stats :=
@@ -191,13 +206,7 @@ def copyOne (c : Ctx) (errAt : Option Nat) (files : List (String × FileScript))
     if c.dryRun then
       (none, x.info s!"Would copy {c.prettySrc p "file"} => {c.prettyDest p "file"}",
         { st with filesCopied := st.filesCopied + 1, bytesCopied := st.bytesCopied + size })
-    else
-      let x := x.sendSrc (.getFileContent p)
-      match chunkLoop errAt p size mtime (fileScript files p) x 0 with
-      | (some e, x, _) => (some e, x, st)
-      | (none, x, off) =>
-        if off ≠ size then (some .sizeChanged, x, st)
-        else (none, x, { st with filesCopied := st.filesCopied + 1, bytesCopied := st.bytesCopied + size })
+    else copyFileReal errAt files p mtime size x st
   | .folder =>
     let st := { st with foldersCreated := st.foldersCreated + 1 }
     if c.dryRun then (none, x.info s!"Would create {c.prettyDest p "folder"}", st)
@@ -211,11 +220,12 @@ def copyLoop (c : Ctx) (errAt : Option Nat) (files : List (String × FileScript)
     List (String × (Details × CopyReason)) → XState → Stats → Option ErrKind × XState × Stats
   | [], x, st => (none, x, st)
   | (p, (d, _)) :: rest, x, st =>
-    match copyOne c errAt files p d x st with
-    | (some e, x, st) => (some e, x, st)
-    | (none, x, st) =>
-      let (e, x) := x.poll errAt
-      if e then (some .doer, x, st) else copyLoop c errAt files rest x st
+    let r := copyOne c errAt files p d x st
+    match r.1 with
+    | some e => (some e, r.2.1, r.2.2)
+    | none =>
+      let q := r.2.1.poll errAt
+      if q.1 then (some .doer, q.2, r.2.2) else copyLoop c errAt files rest q.2 r.2.2
 
 def summary (dry : Bool) (st : Stats) : List String :=
   (if st.filesDel + st.foldersDel + st.linksDel > 0 then
@@ -271,64 +281,89 @@ structure Wrap where
 def mkResult (o : Outcome) (x : XState) (c : Conf) : RunResult :=
   { outcome := o, srcTrace := x.src, destTrace := x.dest, prompts := c.prompts, log := x.log }
 
+/-- delete phase, copy phase, final wait -/
+def execPhase (sc : Scenario) (ctx : Ctx) (x : XState) (conf : Conf)
+    (del : OMap (Details × DelReason)) (cpy : OMap (Details × CopyReason)) : RunResult :=
+  let r1 := deleteLoop ctx sc.errAtPoll del.iter x {}
+  match r1.1 with
+  | some e => mkResult (.err e) r1.2.1 conf
+  | none =>
+    let r2 := copyLoop ctx sc.errAtPoll sc.files cpy.iter (r1.2.1.sendDest (.marker .copying)) r1.2.2
+    match r2.1 with
+    | some e => mkResult (.err e) r2.2.1 conf
+    | none =>
+      let x3 := r2.2.1.sendDest (.marker .done)
+      -- final blocking wait: an error response, whenever it was produced, is seen here
+      match sc.errAtPoll with
+      | some _ => mkResult (.err .doer) x3 conf
+      | none => mkResult .ok { x3 with log := x3.log ++ summary ctx.dryRun r2.2.2 } conf
+
+/-- the planner state after both root entries, and whether each side was asked for its entries -/
+def afterRoots (pc : PCfg) (srcD : Details) (destD : Option Details) : Option (PState × Bool × Bool) :=
+  match pstep pc PState.init (.src "" srcD) with
+  | none => none
+  | some ps =>
+    match destD with
+    | none => some (ps, srcD.isFolder, false)
+    | some d =>
+      match pstep pc ps (.dst "" d) with
+      | none => none
+      | some ps => some (ps, srcD.isFolder, d.isFolder)
+
+/-- query, confirmation, execution -/
+def queryPhase (sc : Scenario) (fs : List FilterSpec) (ctx : Ctx) (x : XState) (conf : Conf) (pc : PCfg)
+    (srcD : Details) (destD : Option Details) : RunResult :=
+  match afterRoots pc srcD destD with
+  | none => mkResult .panic x conf
+  | some (ps, srcAsked, destAsked) =>
+    let x := if srcAsked then x.sendSrc (.getEntries fs) else x
+    let x := if destAsked then x.sendDest (.getEntries fs) else x
+    -- A destination error seen by the `select` loop is an unexpected listing response.  It needs
+    -- a command that can fail before the query (only `CreateRootAncestors`) and a running loop.
+    if sc.errInQuery && (destD.isNone && !ctx.dryRun) && (srcAsked || destAsked) then
+      mkResult (.err .unexpected) x conf
+    else
+    match queryLoop pc srcAsked destAsked sc.events ⟨ps, !srcAsked, !destAsked⟩ with
+    | .error none => mkResult .panic x conf
+    | .error (some e) => mkResult (.err e) x conf
+    | .ok q =>
+      let r := confirmActions conf q.ps.del.reverseOrder q.ps.cpy
+      match r.1 with
+      | some e => mkResult (.err e) x r.2.1
+      | none => execPhase sc ctx x r.2.1 r.2.2.1 r.2.2.2
+
+/-- the root-deletion gate, consulted only if the destination root exists and is incompatible -/
+def gateOf (sc : Scenario) (pc0 : PCfg) (srcD : Details) (destD : Option Details) : Option Bool × Conf :=
+  let conf : Conf := { beh := sc.beh, answers := sc.answers, prompts := [] }
+  match destD with
+  | some d => if needsDelete pc0 srcD d then rootGate conf else (some true, conf)
+  | none => (some true, conf)
+
+/-- trailing-slash validation of the destination root (absent roots are fine) -/
+def destValid (destRoot : String) : Option Details → Option Bool
+  | none => some true
+  | some d => validateTrailingSlash destRoot d
+
+/-- does the destination path end in `/` or `\\` -/
+def destHasSlash (destRoot : String) : Bool :=
+  match lastChar? destRoot with
+  | some c => isSlash c
+  | none => false
+
 /-- The phases after the roots are known. -/
 def runFromRoots (w : Wrap) (sc : Scenario) (fs : List FilterSpec) (ctx : Ctx) (x : XState)
     (srcD : Details) (destD : Option Details) (destDiff : Bool) : RunResult :=
   let _ := w
-  let conf : Conf := { beh := sc.beh, answers := sc.answers, prompts := [] }
   let pc0 : PCfg := { sameTimeSkip := sc.beh.same == .skip, destDiff := destDiff }
   -- root-deletion gate
-  let gate : Option Bool × Conf :=
-    match destD with
-    | some d => if needsDelete pc0 srcD d then rootGate conf else (some true, conf)
-    | none => (some true, conf)
-  match gate with
-  | (none, conf) => mkResult (.err .rootErr) x conf
-  | (some false, conf) => mkResult .ok x conf
-  | (some true, conf) =>
+  let gate := gateOf sc pc0 srcD destD
+  match gate.1 with
+  | none => mkResult (.err .rootErr) x gate.2
+  | some false => mkResult .ok x gate.2
+  | some true =>
     -- missing destination ancestors
     let x := if destD.isNone && !ctx.dryRun then x.sendDest .createRootAncestors else x
-    -- query
-    match pstep pc0 PState.init (.src "" srcD) with
-    | none => mkResult .panic x conf
-    | some ps =>
-      let srcAsked := srcD.isFolder
-      let x := if srcAsked then x.sendSrc (.getEntries fs) else x
-      let afterDestRoot : Option (PState × Bool × XState) :=
-        match destD with
-        | none => some (ps, false, x)
-        | some d =>
-          match pstep pc0 ps (.dst "" d) with
-          | none => none
-          | some ps => some (ps, d.isFolder, if d.isFolder then x.sendDest (.getEntries fs) else x)
-      match afterDestRoot with
-      | none => mkResult .panic x conf
-      | some (ps, destAsked, x) =>
-        -- A destination error seen by the `select` loop is an unexpected listing response.  It needs
-        -- a command that can fail before the query (only `CreateRootAncestors`) and a running loop.
-        if sc.errInQuery && (destD.isNone && !ctx.dryRun) && (srcAsked || destAsked) then
-          mkResult (.err .unexpected) x conf
-        else
-        match queryLoop pc0 srcAsked destAsked sc.events ⟨ps, !srcAsked, !destAsked⟩ with
-        | .error none => mkResult .panic x conf
-        | .error (some e) => mkResult (.err e) x conf
-        | .ok q =>
-          let del := q.ps.del.reverseOrder
-          match confirmActions conf del q.ps.cpy with
-          | (some e, conf, _, _) => mkResult (.err e) x conf
-          | (none, conf, del, cpy) =>
-            match deleteLoop ctx sc.errAtPoll del.iter x {} with
-            | (some e, x, _) => mkResult (.err e) x conf
-            | (none, x, st) =>
-              let x := x.sendDest (.marker .copying)
-              match copyLoop ctx sc.errAtPoll sc.files cpy.iter x st with
-              | (some e, x, _) => mkResult (.err e) x conf
-              | (none, x, st) =>
-                let x := x.sendDest (.marker .done)
-                -- final blocking wait: an error response, whenever it was produced, is seen here
-                match sc.errAtPoll with
-                | some _ => mkResult (.err .doer) x conf
-                | none => mkResult .ok { x with log := x.log ++ summary ctx.dryRun st } conf
+    queryPhase sc fs ctx x gate.2 pc0 srcD destD
 
 def run (w : Wrap) (sc : Scenario) : RunResult :=
   let x0 : XState := ⟨[], [], [], 0⟩
@@ -351,17 +386,11 @@ def run (w : Wrap) (sc : Scenario) : RunResult :=
         match sc.destReply with
         | .other => mkResult (.err .unexpected) x conf0
         | .details destD destDiff destSep =>
-          let v : Option Bool := match destD with
-            | none => some true
-            | some d => validateTrailingSlash sc.destRoot d
-          match v with
+          match destValid sc.destRoot destD with
           | none => mkResult .panic x conf0
           | some false => mkResult (.err .destSlash) x conf0
           | some true =>
-            let destSlash := match lastChar? sc.destRoot with
-              | some c => isSlash c
-              | none => false
-            if srcD.isFileOrSymlink && destSlash then
+            if srcD.isFileOrSymlink && destHasSlash sc.destRoot then
               let destRoot' := sc.destRoot ++ lastComponent sc.srcRoot
               let x := x.sendDest (.setRoot destRoot')
               match sc.destReply2 with
